@@ -10,6 +10,7 @@ import (
 	"go/parser"
 	"go/token"
 	"io/fs"
+	"os"
 	"path/filepath"
 	"sort"
 	"strconv"
@@ -142,66 +143,146 @@ func valueType(e ast.Expr, fn *ast.FuncDecl, imports map[string]string, self str
 	return metaType{}, false
 }
 
+// oneofCase finds the result-proto oneof wrapper (spb.Package_<X>) a switch clause produces: a composite literal of
+// that type in the clause, or -- when the clause calls helpers of package proto -- the helper's result type or a
+// literal in its body (a few levels deep).
+func oneofCase(nodes []ast.Node, funcs map[string]*ast.FuncDecl, depth int) string {
+	name := ""
+	isWrapper := func(e ast.Expr) string {
+		if st, ok := e.(*ast.StarExpr); ok {
+			e = st.X
+		}
+		if se, ok := e.(*ast.SelectorExpr); ok && strings.HasPrefix(se.Sel.Name, "Package_") {
+			return strings.TrimPrefix(se.Sel.Name, "Package_")
+		}
+		return ""
+	}
+	for _, n := range nodes {
+		ast.Inspect(n, func(m ast.Node) bool {
+			if name != "" {
+				return false
+			}
+			switch x := m.(type) {
+			case *ast.CompositeLit:
+				if x.Type != nil {
+					if w := isWrapper(x.Type); w != "" {
+						name = w
+					}
+				}
+			case *ast.CallExpr:
+				if id, ok := x.Fun.(*ast.Ident); ok && depth < 4 {
+					if fd, ok := funcs[id.Name]; ok {
+						if fd.Type.Results != nil {
+							for _, r := range fd.Type.Results.List {
+								if w := isWrapper(r.Type); w != "" {
+									name = w
+								}
+							}
+						}
+						if name == "" && fd.Body != nil {
+							name = oneofCase([]ast.Node{fd.Body}, funcs, depth+1)
+						}
+					}
+				}
+			}
+			return true
+		})
+	}
+	return name
+}
+
 func genProtoMeta(repo string) protoMeta {
 	var out protoMeta
 	fset := token.NewFileSet()
-	pf, err := parser.ParseFile(fset, filepath.Join(repo, "binary", "proto", "proto.go"), nil, 0)
+	// every type switch in package binary/proto that has a clause for a type declared under extractor/ is (part of) the
+	// metadata dispatch, wherever it lives and however its clauses are ordered
+	dir := filepath.Join(repo, "binary", "proto")
+	ents, err := os.ReadDir(dir)
 	if err != nil {
-		fatal("parse proto.go: %v", err)
+		fatal("read binary/proto: %v", err)
 	}
-	imports := importsOf(pf)
-	found := false
-	for _, d := range pf.Decls {
-		fd, ok := d.(*ast.FuncDecl)
-		if !ok || fd.Name.Name != "setProtoMetadata" {
+	type parsed struct {
+		f    *ast.File
+		imps map[string]string
+	}
+	var files []parsed
+	funcs := map[string]*ast.FuncDecl{}
+	for _, e := range ents {
+		if e.IsDir() || !strings.HasSuffix(e.Name(), ".go") || strings.HasSuffix(e.Name(), "_test.go") {
 			continue
 		}
-		ast.Inspect(fd.Body, func(n ast.Node) bool {
+		pf, err := parser.ParseFile(fset, filepath.Join(dir, e.Name()), nil, 0)
+		if err != nil {
+			fatal("parse %s: %v", e.Name(), err)
+		}
+		files = append(files, parsed{pf, importsOf(pf)})
+		for _, d := range pf.Decls {
+			if fd, ok := d.(*ast.FuncDecl); ok && fd.Recv == nil {
+				funcs[fd.Name.Name] = fd
+			}
+		}
+	}
+	found := false
+	seenCase := map[metaType]bool{}
+	for _, pf := range files {
+		ast.Inspect(pf.f, func(n ast.Node) bool {
 			ts, ok := n.(*ast.TypeSwitchStmt)
-			if !ok || found {
+			if !ok {
+				return true
+			}
+			isMeta := false
+			for _, st := range ts.Body.List {
+				for _, te := range st.(*ast.CaseClause).List {
+					if t, ok := typeID(te, pf.imps, modPrefix+"binary/proto"); ok && strings.HasPrefix(t.Type, "extractor/") {
+						isMeta = true
+					}
+				}
+			}
+			if !isMeta {
 				return true
 			}
 			found = true
 			for _, st := range ts.Body.List {
 				cc := st.(*ast.CaseClause)
-				// the oneof wrapper assigned in the clause body: p.Metadata = &spb.Package_X{...}
-				caseName := ""
-				for _, b := range cc.Body {
-					ast.Inspect(b, func(m ast.Node) bool {
-						as, ok := m.(*ast.AssignStmt)
-						if !ok || len(as.Lhs) != 1 || len(as.Rhs) != 1 {
-							return true
-						}
-						if sel, ok := as.Lhs[0].(*ast.SelectorExpr); !ok || sel.Sel.Name != "Metadata" {
-							return true
-						}
-						if u, ok := as.Rhs[0].(*ast.UnaryExpr); ok {
-							if cl, ok := u.X.(*ast.CompositeLit); ok {
-								if se, ok := cl.Type.(*ast.SelectorExpr); ok && strings.HasPrefix(se.Sel.Name, "Package_") {
-									caseName = strings.TrimPrefix(se.Sel.Name, "Package_")
-								}
-							}
-						}
-						return true
-					})
+				if cc.List == nil {
+					continue // default
 				}
+				var body []ast.Node
+				for _, b := range cc.Body {
+					body = append(body, b)
+				}
+				caseName := oneofCase(body, funcs, 0)
 				for _, te := range cc.List {
-					t, ok := typeID(te, imports, modPrefix+"binary/proto")
+					if id, ok := te.(*ast.Ident); ok && id.Name == "nil" {
+						continue
+					}
+					t, ok := typeID(te, pf.imps, modPrefix+"binary/proto")
 					if !ok {
-						fatal("setProtoMetadata: unsupported case type at %s", fset.Position(te.Pos()))
+						fatal("metadata type switch: unsupported case type at %s", fset.Position(te.Pos()))
 					}
 					if caseName == "" {
-						fatal("setProtoMetadata: case %s%s does not assign p.Metadata = &spb.Package_X{...}", map[bool]string{true: "*"}[t.Pointer], t.Type)
+						// a clause that sets no oneof wrapper: same as no clause
+						continue
 					}
-					out.Cases = append(out.Cases, protoCase{t, caseName})
+					if !seenCase[t] {
+						seenCase[t] = true
+						out.Cases = append(out.Cases, protoCase{t, caseName})
+					}
 				}
 			}
 			return true
 		})
 	}
 	if !found {
-		fatal("func setProtoMetadata with a type switch not found in binary/proto/proto.go (translator needs updating)")
+		fatal("no type switch over extractor metadata types found in package binary/proto (translator needs updating)")
 	}
+	// clause order is irrelevant for a type switch over distinct concrete types: keep the table sorted
+	sort.Slice(out.Cases, func(i, j int) bool {
+		if out.Cases[i].Type != out.Cases[j].Type {
+			return out.Cases[i].Type < out.Cases[j].Type
+		}
+		return !out.Cases[i].Pointer && out.Cases[j].Pointer
+	})
 
 	root := filepath.Join(repo, "extractor")
 	err = filepath.WalkDir(root, func(p string, d fs.DirEntry, err error) error {
